@@ -11,6 +11,10 @@ def run(index, rep, tier):
     rep.rule("R16.2", "parsimony_score refuses a tree and a matrix over different namespaces before computing anything")
     rep.rule("R16.3", "arguments are not written: chars and weights are never the base of a store or mutator call; score_by_character_list is the only out-parameter and is asserted empty on entry")
     rep.rule("R16.4", "per-character scores add up to the total: every increment of the total by wt is paired with the same increment of score_by_character_list[n]")
+    rep.rule("R16.5", "no state outlives a call: the parsimony module has no mutable default argument and no class-level container that instances fill")
+    with rep.section("R16.5"):
+        from . import c12
+        rep.floor("R16.5", "defaults and class-level containers in the parsimony module", 5, c12.shared_mutable_rule(index, rep, "R16.5", [PM]))
     fd = index.function(PM + ".fitch_down_pass")
     ps = index.function(PM + ".parsimony_score")
 
